@@ -37,6 +37,14 @@ CHECKS = {
              "contributions change a value because all values are positive); every created output coordinate must be integral and inside "
              "the extent. Five root causes found on the unchanged tree are listed as known findings with narrow excluded classes; two were fixed.",
         design="4/C04"),
+    "C05": dict(
+        technique="property-based testing (Hypothesis): generated cascades of 2-4 Einsums with per-Einsum mappings, executed whole on a reference model vs chained dense evaluation; differential text comparison of every Einsum compiled after every prefix vs compiled alone (temporaries renumbered)",
+        text="Generated-input search over cascades (each Einsum may read declared inputs and earlier outputs; shape/occupancy partitioning, "
+             "loop and rank orders per Einsum): (a) whole programs are executed on the reference model and every intermediate and final "
+             "output, looked up under its declared-or-rank-order name, is compared with chained dense evaluation; (b) for every j <= i the "
+             "text emitted for Einsum i after compiling Einsums j..i-1 must equal its stand-alone compilation up to temporary numbering "
+             "(plain and spacetime modes).",
+        design="4/C05"),
 }
 
 NOT_APPLICABLE = {}
